@@ -220,15 +220,33 @@ package lexer
 
 //@ func checkHasChar
 //@   sweep C01
+//@   props C03
+//@   ensures[C03,is-membership-in-an-ascii-set] forall(k, 0, len(strStr), strStr[k] < 128) ==> (result <==> exists(k, 0, len(strStr), strStr[k] == ch))
+//@   loop 0 invariant [C03] 0 <= iterpos() && iterpos() <= len(strStr) && (forall(k, 0, len(strStr), strStr[k] < 128) ==> forall(k, 0, iterpos(), strStr[k] != ch))
 //@ end
 
+// C03: a numeral token never swallows an operator. A sign belongs to the numeral only directly after the exponent
+// marker of the numeral's base: e/E for decimal, p/P for hexadecimal (where e/E are digits). Every other byte of
+// the token is a byte a numeral may contain; the token is the verbatim source slice.
+//@ spec isHexNum(s string) bool = (len(s) >= 2 && s[0] == 48 && (s[1] == 120 || s[1] == 88)) || (len(s) >= 3 && s[0] == 46 && s[1] == 48 && (s[2] == 120 || s[2] == 88))
+//@ spec expoMark(c int, hex bool) bool = hex ? (c == 80 || c == 112) : (c == 69 || c == 101)
+//@ spec numByte(c int) bool = (c >= 48 && c <= 57) || (c >= 97 && c <= 102) || (c >= 65 && c <= 70) || c == 117 || c == 85 || c == 108 || c == 76 || c == 46 || c == 120 || c == 88 || c == 112 || c == 80
 //@ func (*Lexer).scanNumber
 //@   sweep C01
+//@   props C03
+//@   ensures[C03,token-is-the-verbatim-source-slice] len(result) >= 1 && len(result) + len(l.chunk) == old(len(l.chunk)) && forall(k, 0, len(result), result[k] == old(l.chunk)[k])
+//@   ensures[C03,sign-only-after-the-exponent-marker-of-the-base] forall(k, 1, len(result), (result[k] == 43 || result[k] == 45) ==> expoMark(result[k - 1], isHexNum(result)))
+//@   ensures[C03,no-other-operator-byte-inside] forall(k, 1, len(result), result[k] == 43 || result[k] == 45 || numByte(result[k]))
+//@   loop 0 invariant [C03] 1 <= i && i <= len(l.chunk) && l.chunk == old(l.chunk)
+//@        && (streq(strExpo, "Pp") || streq(strExpo, "Ee")) && (streq(strExpo, "Pp") <==> isHexNum(l.chunk))
+//@        && forall(k, 1, i, (l.chunk[k] == 43 || l.chunk[k] == 45) ==> expoMark(l.chunk[k - 1], isHexNum(l.chunk)))
+//@        && forall(k, 1, i, l.chunk[k] == 43 || l.chunk[k] == 45 || numByte(l.chunk[k]))
 //@   ensures[C01,keeps-now-token] l.nowToken == old(l.nowToken)
 //@   ensures[C01,line-only-grows] l.line >= old(l.line)
 //@   loop 0 decreases len(l.chunk) - i
 //@   ensures len(l.chunk) < old(len(l.chunk))
 //@   requires len(l.chunk) >= 1 && (l.chunk[0] == 46 ==> len(l.chunk) >= 2)
+//@   requires[C03,starts-like-a-numeral] (l.chunk[0] >= 48 && l.chunk[0] <= 57) || (l.chunk[0] == 46 && l.chunk[1] >= 48 && l.chunk[1] <= 57)
 //@ end
 
 //@ func (*Lexer).scanLongString
